@@ -156,10 +156,30 @@ def operands(rnd, FST, ctx):
     ops = []
     for s in SAMPLES:
         ops.append((s, (lambda s=s: FST(s))))
-    for m, srcs in MODE_SAMPLES.items():
+        v = mb_variant(s)
+        if v != s:
+            ops.append((v, (lambda s=v: FST(s))))
+    for m, srcs in list(MODE_SAMPLES.items()) + list(MODE_SAMPLES_MORE.items()):
         for s in srcs:
             ops.append((f'{m}:{s}', (lambda s=s, m=m: FST(s, m))))
+            v = mb_variant(s)
+            if v != s:
+                ops.append((f'{m}:{v}', (lambda s=v, m=m: FST(s, m))))
     return ops
+
+
+MB = {'a': 'á', 'b': '日本', 'c': 'ç', 'x': 'ξ', 'k': 'к', 'v': 'ü'}
+MODE_SAMPLES_MORE = {
+    'arguments': ['a, *b, c', 'a, b=1, /, c, *d, e=2, **f', 'a, b, /', '*, a, b=1', 'a: int, *b: str, **c: x'], 'arguments_lambda': ['a, *b, c', '*a, **k'],
+    '_arglikes': ['*a, b, *c, k=v, *d, **e', 'a, *not b'], 'Tuple': ['a, *b, c', '*a, *b'], 'pattern': ['a, *b, c', '[a, *b]', '{"k": a, "j": b, **c}', 'C(a, b, x=c)'],
+    '_aliases': ['a.b.c', 'a.b.c as d, x.k.v'], 'Import_name': ['a.b.c', 'a.b.c.x'], '_Import_names': ['a.b.c, x.k', 'a.b.c'], '_withitems': ['a as b, c as (x, k)'],
+    '_type_params': ['a: b, *c, **x'], '_comprehensions': ['for a in b if c for x in k'], '_decorator_list': ['@a.b.c\n@x(k)'],
+}
+
+
+def mb_variant(s):
+    """Same fragment with single-letter identifiers renamed to multi-byte names (char columns != byte columns)."""
+    return re.sub(r'(?<![\w"\'\\])([abcxkv])(?![\w"\'])', lambda m: MB[m.group(1)], s)
 
 
 def judge(ctx, FST, label, build, mode, entry, opts, rnd):
